@@ -12,12 +12,12 @@ CLAIMS = {
          "reviewed direct node constructions; level_swap mutates nodes only while out of the table; all 12 reduce functions "
          "interpreted over their abstract child domain (no redundant node, canonical complement form, level agreement); "
          "probe-chain accounting of the open-addressing unique table. Does not decide the 'iff' over histories.",
-         "MIR field/dominance rules + abstract interpretation of HIR reduce tables", "4 C01"),
+         "MIR field/dominance rules + abstract interpretation of HIR reduce tables", "3.8, 3.3, 4 C01"),
  "C15": ("E-DDDMP + E-UNITS + E-LIN: writer/reader agreement as finite constant tables: header key set inclusion, byte-class "
          "coverage of the name sanitisers vs the reader's separators (all 256 bytes), escape table and binary node-code layout "
          "mutually inverse (exhaustive); var/level unit discipline of the exporter/importer; no edge leaked on importer error "
          "paths. Round-trip equality and totality on malformed input are value-level and not decided.",
-         "constant-table extraction from HIR + exhaustive evaluation; unit analysis", "4 C15"),
+         "constant-table extraction from HIR + exhaustive evaluation; unit analysis", "3.9, 4 C15"),
  "C19": ("E-FFI + E-LIN + E-UNITS on oxidd-ffi-c: C symbol <-> Rust operation wiring and operand order, equal export sets of the "
          "three files, from_raw only under ManuallyDrop::new (borrow) or drop (unref), no entry point but the documented one "
          "consumes handles and that one does so unconditionally, failure -> INVALID mapping, operand validation in op1/op2/op3. "
@@ -36,23 +36,31 @@ CLAIMS = {
          "probe-loop guards. Necessary conditions of `free <= #FREE slots` (termination of lookups, intact probe chains); set "
          "semantics over operation sequences is not decided.",
          "MIR dataflow/dominance rules with a frozen writer table", "3.8, 4 C17"),
- "C02": ("E-TABLE + E-WRAP: the terminal/base-case table of all 8 BDD connectives is enumerated over its abstract "
-         "operand domain and compared with truth tables; every BooleanFunction `x_edge` wrapper (BDD, BCDD, ZBDD; ST and MT) "
-         "is interpreted symbolically and must denote the connective it is named for; default methods forward to their _edge "
-         "sibling. Decides base cases and wiring, not the recursive step.",
+ "C02": ("E-TABLE.{bdd,bcdd,shortcut} + E-WRAP + E-UNITS + E-CACHE: the terminal/base-case table of all 8 BDD connectives and "
+         "BCDD's terminal_and/terminal_xor (incl. complement tags) are enumerated over their abstract operand domain and compared "
+         "with truth tables; the shortcut prefixes of apply_ite (BDD) and of the ZBDD set operations are interpreted up to the "
+         "cache lookup; every BooleanFunction `x_edge` wrapper (BDD, BCDD, ZBDD; ST and MT) is interpreted symbolically and must "
+         "denote the connective it is named for; default methods forward to their _edge sibling; var/level units and apply-cache "
+         "key pairing / hit = miss of the bdd and zbdd rules crates. Decides base cases, shortcuts and wiring, not the recursive step.",
          "abstract interpretation of HIR case tables and wrappers over finite domains", "3.3, 3.4, 4 C02"),
- "C04": ("E-WRAP: quantifier wrappers and the BDD/BCDD apply-and-quantify dispatch (dualisation) tables are interpreted "
-         "for all 8 operators and compared with Q v.(f op g) over all operand valuations. Decides tag/dualisation plumbing, "
-         "not the recursion.", "abstract interpretation of HIR dispatch tables", "3.4, 4 C04"),
- "C05": ("E-LIN: edge linearity on every non-unwind path of every function body (drop-elaborated MIR) plus the "
-         "vetted-destructor table. Necessary condition of exact reference counts: no owned edge is dropped by the compiler "
-         "instead of being released through the manager, on any path incl. every `?`/out-of-memory path.",
-         "MIR drop-terminator typestate lint (rustc_private driver)", "3.1, 4 C05"),
- "C03": ("E-UNITS + E-UNITS.pre: unit analysis (VarNo vs LevelNo, both u32 aliases) over all bodies of the managers, "
+ "C04": ("E-WRAP + E-UNITS + E-CACHE: quantifier wrappers and the BDD/BCDD apply-and-quantify dispatch (dualisation) tables are "
+         "interpreted for all 8 operators and compared with Q v.(f op g) over all operand valuations; var/level units of the "
+         "quantification/substitution code; cache key pairing and hit = miss (restrict's complement tag). Decides tag/dualisation "
+         "plumbing and unit discipline, not the recursion.", "abstract interpretation of HIR dispatch tables", "3.4, 4 C04"),
+ "C05": ("E-LIN + E-FREELIST + E-CANON.swap + E-WHO: edge linearity on every non-unwind path of every function body "
+         "(drop-elaborated MIR) plus the vetted-destructor table; thread-local free lists and node-count deltas are handed to the "
+         "shared store by move only; level_swap releases a node's edges before unlinking children; frozen caller sets of the "
+         "node-removal primitives and their gates. Necessary conditions of exact reference counts: no owned edge is dropped by the "
+         "compiler instead of being released through the manager, on any path incl. every `?`/out-of-memory path; no slot is on two "
+         "free lists. Exactness over histories is not decided.",
+         "MIR drop-terminator typestate lint (rustc_private driver) + move-only dataflow + who-may-call", "3.1, 3.8, 3.5, 4 C05"),
+ "C03": ("E-UNITS + E-UNITS.pre + E-TABLE.reduce + E-CANON.swap + E-WHO: unit analysis (VarNo vs LevelNo, both u32 aliases) over all bodies of the managers, "
          "oxidd-reorder and the rules crates, seeded from the declared signatures; inside level_swap, stale stored level numbers "
-         "vs positions. Necessary for 'every node is listed in the level it reports' and 'children on lower levels' after a "
+         "vs positions; all 12 reduce functions interpreted (no redundant node, BCDD then-edge untagged, node inserted at the level "
+         "it is created for); set_child before insert and relabel before insert in level_swap; only oxidd-reorder may call the "
+         "level-invariant-breaking primitives. Necessary for 'every node is listed in the level it reports' and 'children on lower levels' after a "
          "reordering; does not decide uniqueness/reducedness over histories.",
-         "dimension (unit) analysis over type-checked HIR", "3.10, 4 C03"),
+         "dimension (unit) analysis over type-checked HIR + HIR table interpretation + who-may-call", "3.10, 3.3, 3.5, 4 C03"),
  "C06": ("E-CACHE + E-CACHE.dm + E-EVENT + E-TABLE tags: get/add key pairing, memoised value = returned value, injective and "
          "name-consistent computed tags, pairwise disjoint tag sets per rules crate; the direct-mapped cache compares and hashes "
          "all key parts, never blocks on the operation path and keeps entries locked between pre_gc and post_gc; gc/reorder/"
@@ -69,26 +77,38 @@ CLAIMS = {
          "gc, MT wrappers reach the same algorithm instances. These are necessary conditions (no deadlock by lock order, the "
          "stated happens-before edges exist); equivalence to a sequential execution over schedules is NOT decided.",
          "lock-order graph + atomic-ordering table + MIR dataflow rules", "3.6, 4 C07"),
- "C08": ("E-UNITS.pre + E-UNITS + E-LIN on oxidd-reorder: level_swap's stale-number discipline (compare stored numbers with "
+ "C08": ("E-UNITS.pre + E-UNITS + E-LIN + E-CANON.swap + E-WHO on oxidd-reorder: level_swap's stale-number discipline (compare stored numbers with "
          "_pre parameters only, create/relabel nodes with the stale number of their level), no var/level mix-ups, no owned edge "
-         "dropped by the compiler. Does not decide that functions are preserved.",
-         "dimension (unit) analysis over HIR + MIR drop lint", "3.10, 3.1, 4 C08"),
- "C13": ("E-UNITS on the rules crates: pick_cube's level->variable conversions carry the declared units. "
-         "Does not decide that the cube is an implicant.", "dimension (unit) analysis over type-checked HIR", "3.10, 4 C13"),
- "C14": ("E-LIN restricted to error exits: on every `?`/Err path of the rules crates, oxidd-dump, oxidd-reorder, the managers "
+         "dropped by the compiler, children rewritten before re-insertion (hash under the final key), unchecked insertions "
+         "only, gated entry points. Does not decide that functions are preserved.",
+         "dimension (unit) analysis over HIR + MIR drop lint + ordering/who-may-call rules", "3.10, 3.1, 3.8, 3.5, 4 C08"),
+ "C13": ("E-TABLE.pick + E-UNITS: one step of pick_cube_dd_edge / pick_cube_dd_set_edge (BDD and BCDD) interpreted over a "
+         "structured abstract node: a forced branch (one child = false) is taken without consulting the choice, otherwise the choice "
+         "/ the literal's polarity decides exactly once, the literal-set cursor advances past skipped literals; pick_cube's "
+         "level->variable conversions carry the declared units. Does not decide that the cube is an implicant, nor uniformity.",
+         "abstract interpretation of HIR + dimension (unit) analysis", "3.3, 3.10, 4 C13"),
+ "C14": ("E-LIN + E-OOM: E-LIN restricted to error exits: on every `?`/Err path of the rules crates, oxidd-dump, oxidd-reorder, the managers "
          "and the FFI crate no owned edge is dropped by the compiler, i.e. everything acquired is released through a guard or "
-         "the manager. Does not decide state validity after failure.",
-         "MIR drop-terminator typestate lint (rustc_private driver)", "3.1, 4 C14"),
- "C09": ("E-WRAP: the BooleanVecSet wrappers and the Boolean view of ZBDDs are interpreted symbolically and must denote "
-         "the set operation they are named for (incl. subset::<VAL> tags and diff operand order).",
+         "the manager; AllocResult is unwrapped only where allocation cannot fail (static terminals) and process::abort is reached only "
+         "from reviewed sites (2 recorded known findings: level_swap and ZBDDCache::post_reorder_mut abort on OOM). Does not decide "
+         "state validity after failure.",
+         "MIR drop-terminator typestate lint + call-site inventory", "3.1, 3.9, 4 C14"),
+ "C09": ("E-WRAP + E-TABLE.{reduce,shortcut}(zbdd) + E-UNITS + E-CACHE: the BooleanVecSet wrappers and the Boolean view of ZBDDs "
+         "are interpreted symbolically and must denote the set operation they are named for (incl. subset::<VAL> tags and diff "
+         "operand order); the zero-suppression reduce functions and the shortcut prefixes of union/intsec/diff/symm_diff are "
+         "interpreted against set algebra; units and cache key pairing of the zbdd rules crate. The level-comparison recursion is "
+         "not decided.",
          "abstract interpretation of HIR wrappers", "3.4, 4 C09"),
  "C10": ("E-TABLE + E-WRAP: mtbdd::terminal_bin enumerated over {NaN,0,1,c1,c2,x,y}^2 for 6 operators and all comparison "
          "outcomes, result term compared with the pointwise operator on a grid of extended reals with NaN (neutral/absorbing "
          "shortcuts, operand swaps, operator tag used for recursion and caching); PseudoBooleanFunction wrappers wired to the "
-         "operator they are named for.", "abstract interpretation of HIR case tables", "3.3, 3.4, 4 C10"),
+         "operator they are named for; I64 Add/Sub/Mul/Div interpreted over sign classes with checked_* = None exactly on "
+         "overflow-capable sign pairs (saturation to the infinity of the exact result's sign); cache key pairing.",
+         "abstract interpretation of HIR case tables", "3.3, 3.4, 4 C10"),
  "C11": ("E-TABLE + E-WRAP: tdd::terminal_bin enumerated over {F,U,T,x,y}^2 for 8 operators and compared with the Kleene / "
          "Lukasiewicz tables named in the property; TVLFunction wrappers and default constant constructors (f/t/u) forward to "
-         "the method they are named for.", "abstract interpretation of HIR case tables", "3.3, 3.4, 4 C11"),
+         "the method they are named for; apply_ite_rec's shortcut prefix interpreted against the pointwise decision list; cache "
+         "key pairing.", "abstract interpretation of HIR case tables", "3.3, 3.4, 4 C11"),
 }
 checks = []
 for pid, (text, tech, ref) in sorted(CLAIMS.items()):
